@@ -409,8 +409,12 @@ package keeper
 //@          ? marshal(with(Node[keyinv(Node, k)], Status, Node[keyinv(Node, k)].Status & 1)) : entry(rawsel(FaultIdx, k)))
 
 // staking hooks: a node bonded to the validator is promoted only if it meets every requirement of the super role at that moment
+// The hook reads the package-level variable sharesBeforeModified that BeforeDelegationSharesModified wrote earlier in the same
+// staking operation (a recorded finding: process memory that a discarded transaction leaves behind). What is under contract
+// here is that the value never outlives the hook: it is zero again when the hook returns.
 //@ func (Hooks) verifySuperStorageNodes(ctx, valAddr, accAddr, beforeDeletationRemoved)
 //@   modifies *
+//@   ensures [C03.hook.reset] [C01.hook.reset] global(sharesBeforeModified) == 0
 //@   at SetSuperNode assert [C20.hook.promote] has(Node, sp) && (Node[sp].Status & 15) == 15 && Node[sp].Role == 0
 //@       && has(Pledge, sp) && Pledge[sp].TotalStorage >= param(KeyVstorageThreshold)
 //@       && shareOK(sp, val, sharesToSub, decFromStr(param(KeyShareThreshold)))
